@@ -4,12 +4,16 @@ package main
 
 import (
 	"bytes"
+	"context"
 	"encoding/binary"
 	"errors"
 	"fmt"
 	"io"
+	"math/rand"
 	"strconv"
 	"strings"
+	"sync"
+	"time"
 
 	"github.com/IrineSistiana/mosdns/v5/pkg/dnsutils"
 	"github.com/IrineSistiana/mosdns/v5/pkg/pool"
@@ -357,5 +361,245 @@ func runC16(r *Run) {
 	for round := 0; round < rounds; round++ {
 		serveTCP16(r, 6+r.Rng.Intn(10))
 	}
+	// ---- the transports' own read loops under adversarial chunking of several frames
+	clientReadLoops16(r, r.N(40, 600))
+	// ---- frames written by retries of the non-pipelined transport
+	reuseRetryFrames16(r, r.N(25, 300))
+	// ---- DoQ streams carry exactly one frame per direction (RFC 9250 4.2)
+	doqScenarios(r, "C16", r.N(40, 400))
 	r.Finish("boundary lengths {0..14,255..257,511,512,4095,4096,8188..8192,65533..65537,70000} + seeded lengths; every in-range write is read back under a seeded chunking (single chunk, 1-byte reads, split header, random, empty reads); read side: 40% valid frames, 20% announced<=12, 20% truncated, 20% random bytes, each under a chunking; packed messages around the 8191-byte scratch buffer; concurrent ServeTCP replies on a wrapped connection; non-trivial = not (valid frame in one chunk)")
+}
+
+// clientReadLoops16: the client side of stream framing inside the transports. N queries are in flight on one
+// pipelined length-prefixed connection (TraditionalDnsConn), the server answers all of them in one burst whose
+// byte stream is cut adversarially (all frames in one chunk, a frame plus half of the next, single bytes, random
+// cuts); every caller must get exactly the bytes the server framed for it.
+func clientReadLoops16(r *Run, rounds int) {
+	for rd := 0; rd < rounds; rd++ {
+		n := 2 + r.Rng.Intn(7)
+		how := r.Rng.Intn(4)
+		fc := newFakeConn(rd, true)
+		var mu sync.Mutex
+		var seen [][]byte
+		want := map[int][]byte{} // tag -> reply message as framed by the server
+		pad := make([]int, n)
+		for i := range pad {
+			pad[i] = []int{0, 0, 1, 200, 480, 481, 482, 483, 510, 511, 512, 513, 1500}[r.Rng.Intn(13)]
+		}
+		base := r.Rng.Int63()
+		fc.onWrite = func(c *fakeConn, w []byte) error {
+			q := c.payloadOf(w)
+			if len(q) < 12 {
+				return nil
+			}
+			mu.Lock()
+			seen = append(seen, append([]byte(nil), q...))
+			all := len(seen) == n
+			var qs [][]byte
+			if all {
+				qs = append(qs, seen...)
+			}
+			mu.Unlock()
+			if !all {
+				return nil
+			}
+			rnd := rand.New(rand.NewSource(base))
+			rnd.Shuffle(len(qs), func(i, j int) { qs[i], qs[j] = qs[j], qs[i] })
+			var stream []byte
+			var bounds []int
+			for i, q := range qs {
+				rep := mkReply(q, binary.BigEndian.Uint16(q))
+				for k := 0; k < pad[i]; k++ {
+					rep = append(rep, byte(rnd.Intn(256)))
+				}
+				mu.Lock()
+				want[tagOf(q)] = rep
+				mu.Unlock()
+				stream = append(stream, c.frame(rep)...)
+				bounds = append(bounds, len(stream))
+			}
+			var chunks [][]byte
+			switch how {
+			case 0: // everything in one chunk
+				chunks = [][]byte{stream}
+			case 1: // each frame together with the first half of the next one
+				prev := 0
+				for i, b := range bounds {
+					end := b
+					if i+1 < len(bounds) {
+						end = b + (bounds[i+1]-b)/2
+					}
+					chunks = append(chunks, stream[prev:end])
+					prev = end
+				}
+			case 2: // single bytes
+				for i := range stream {
+					chunks = append(chunks, stream[i:i+1])
+				}
+			default:
+				rest := stream
+				for len(rest) > 0 {
+					k := 1 + rnd.Intn(len(rest))
+					chunks = append(chunks, rest[:k])
+					rest = rest[k:]
+				}
+			}
+			go func() {
+				for _, ch := range chunks {
+					c.feed(ch)
+				}
+			}()
+			return nil
+		}
+		dc := transport.NewDnsConn(transport.TraditionalDnsConnOpts{WithLengthHeader: true, IdleTimeout: 10 * time.Second, MaxConcurrentQuery: 64}, fc)
+		type res struct {
+			tag  int
+			id   uint16
+			resp *[]byte
+			err  error
+		}
+		out := make([]res, n)
+		var wg sync.WaitGroup
+		for i := 0; i < n; i++ {
+			tag := 160000 + rd*16 + i
+			id := uint16(r.Rng.Intn(65536))
+			out[i] = res{tag: tag, id: id}
+			wg.Add(1)
+			go func(i int) {
+				defer wg.Done()
+				rx, _ := dc.ReserveNewQuery()
+				if rx == nil {
+					out[i].err = errors.New("cannot reserve")
+					return
+				}
+				ctx, cancel := context.WithTimeout(context.Background(), 4*time.Second)
+				defer cancel()
+				out[i].resp, out[i].err = rx.ExchangeReserved(ctx, mkQuery(out[i].id, out[i].tag))
+			}(i)
+		}
+		wg.Wait()
+		dc.Close()
+		desc := map[string]any{"transport": "pipelined connection with length header", "queries_in_flight": n, "reply_sizes_beyond_the_question": fmt.Sprint(pad),
+			"reply_stream_cut": []string{"all frames in one chunk", "each frame with the first half of the next", "single bytes", "random cuts"}[how]}
+		for _, o := range out {
+			desc["query_tag"] = o.tag
+			mu.Lock()
+			w := want[o.tag]
+			mu.Unlock()
+			if o.err != nil || o.resp == nil {
+				desc["err"] = fmt.Sprint(o.err)
+				r.Fail("a reply frame sent by the server on a pipelined stream connection did not reach its caller", desc)
+				continue
+			}
+			got := append([]byte(nil), *o.resp...)
+			if len(got) >= 2 && len(w) >= 2 && binary.BigEndian.Uint16(got) == o.id {
+				copy(got[:2], w[:2]) // the caller's id is restored over the wire id
+			}
+			if !bytes.Equal(got, w) {
+				desc["got_len"], desc["want_len"] = len(got), len(w)
+				r.Fail("a message read from a chunked stream differs from the message the server framed", desc)
+			}
+		}
+		r.Eval(fmt.Sprintf("clientread/%d/%d/%d", how, n, rd), true)
+		r.Count("client-read-loop:" + []string{"one-chunk", "frame+half", "single-bytes", "random"}[how])
+		r.Trace()
+	}
+}
+
+// reuseRetryFrames16: what goes over the wire when a non-pipelined transport retries. Idle connections die (their
+// next Write fails), the exchange is retried on the next idle one and finally on a fresh connection; released pool
+// buffers are overwritten at once (as a concurrent user of the pool would). Every Write on every connection must
+// be exactly one frame: 2-byte length + the caller's query.
+func reuseRetryFrames16(r *Run, rounds int) {
+	orig := pool.ReleaseBuf
+	pool.ReleaseBuf = func(b *[]byte) {
+		if b != nil {
+			for i := range *b {
+				(*b)[i] = 0xEE
+			}
+		}
+		orig(b)
+	}
+	defer func() { pool.ReleaseBuf = orig }()
+	for rd := 0; rd < rounds; rd++ {
+		dead := 1 + r.Rng.Intn(3)
+		var mu sync.Mutex
+		var conns []*fakeConn
+		failing := map[int]bool{}
+		dial := func(ctx context.Context) (transport.NetConn, error) {
+			mu.Lock()
+			defer mu.Unlock()
+			c := newFakeConn(len(conns), true)
+			c.onWrite = func(c *fakeConn, w []byte) error {
+				mu.Lock()
+				bad := failing[c.id]
+				mu.Unlock()
+				if bad {
+					return errFake
+				}
+				q := c.payloadOf(w)
+				if len(q) >= 12 {
+					c.feed(c.frame(mkReply(q, binary.BigEndian.Uint16(q))))
+				}
+				return nil
+			}
+			conns = append(conns, c)
+			return c, nil
+		}
+		t := transport.NewReuseConnTransport(transport.ReuseConnOpts{DialContext: dial})
+		// open `dead` connections by running that many exchanges at once, let them become idle
+		var wg sync.WaitGroup
+		for i := 0; i < dead; i++ {
+			wg.Add(1)
+			go func(i int) {
+				defer wg.Done()
+				ctx, cancel := context.WithTimeout(context.Background(), 3*time.Second)
+				defer cancel()
+				t.ExchangeContext(ctx, mkQuery(uint16(i), 170000+rd*16+i))
+			}(i)
+		}
+		wg.Wait()
+		time.Sleep(2 * time.Millisecond)
+		mu.Lock()
+		for _, c := range conns {
+			failing[c.id] = true // every pooled connection is dead from now on
+		}
+		nBefore := len(conns)
+		mu.Unlock()
+		tag := 170000 + rd*16 + 9
+		id := uint16(r.Rng.Intn(65536))
+		q := mkQuery(id, tag)
+		ctx, cancel := context.WithTimeout(context.Background(), 3*time.Second)
+		resp, err := t.ExchangeContext(ctx, q)
+		cancel()
+		t.Close()
+		desc := map[string]any{"transport": "reuse (non-pipelined)", "dead_idle_connections": nBefore, "query_tag": tag, "err": fmt.Sprint(err)}
+		frames := map[string]bool{}
+		addFrame := func(m []byte) { frames[string(append([]byte{byte(len(m) >> 8), byte(len(m))}, m...))] = true }
+		addFrame(q)
+		for i := 0; i < dead; i++ {
+			addFrame(mkQuery(uint16(i), 170000+rd*16+i))
+		}
+		mu.Lock()
+		cs := append([]*fakeConn(nil), conns...)
+		mu.Unlock()
+		for _, c := range cs {
+			c.mu.Lock()
+			ws := append([][]byte(nil), c.writes...)
+			c.mu.Unlock()
+			for wi, w := range ws {
+				if !frames[string(w)] {
+					desc["connection"], desc["write_no"] = c.id, wi
+					desc["written"] = hx(w[:min(len(w), 48)])
+					r.Fail("a Write on a connection of the non-pipelined transport (first attempt or retry) is not exactly one frame: 2-byte length + one of the callers' queries", desc)
+				}
+			}
+		}
+		if err == nil && resp != nil && (tagOf(*resp) != tag || binary.BigEndian.Uint16(*resp) != id) {
+			r.Fail("the retried exchange returned something other than the reply to its query", desc)
+		}
+		r.Eval(fmt.Sprintf("reuse-retry/%d/%d", dead, rd), true)
+		r.Count("reuse-retry-frames")
+		r.Trace()
+	}
 }
